@@ -215,6 +215,18 @@ def build(tier, repo):
 
     r4 = chk.rule("C07-R4", "KKT factories: a matrix whose in-place factorisation failed is rebuilt before reuse; assembly sites of one matrix add the same contributions",
                   "each solver solves the documented block system also after the singular-case fallback")
+    fallback_rule(r4, w)
+
+    r5 = chk.rule("C07-R5", "block-offset discipline in compute_scaling, update_scaling and the kkt_* factories", "scalings and reduced systems address the right blocks")
+    rc.offsets_rule(r5, w, [("misc", "compute_scaling"), ("misc", "update_scaling"), ("misc", "kkt_ldl.*"), ("misc", "kkt_ldl2.*"),
+                            ("misc", "kkt_chol.*"), ("misc", "kkt_chol2.*"), ("misc", "kkt_qr.*")])
+    return chk
+
+
+def fallback_rule(r4, w):
+    """R4: typestate of matrices that went through a failed in-place factorisation, and
+    agreement of the contribution sets of all assembly sites (shared with C03)."""
+    mods = w.mods
     mm = mods["misc"]
     for q, fn in mm.funcs.items():
         if not q.startswith("kkt_"):
@@ -257,10 +269,6 @@ def build(tier, repo):
                                  "this assembly of %s adds %s but the one at %s adds %s: the two code paths factor different matrices"
                                  % (target, sorted(core), base[0], sorted(base[1])), sorted(base[1]), sorted(core))
 
-    r5 = chk.rule("C07-R5", "block-offset discipline in compute_scaling, update_scaling and the kkt_* factories", "scalings and reduced systems address the right blocks")
-    rc.offsets_rule(r5, w, [("misc", "compute_scaling"), ("misc", "update_scaling"), ("misc", "kkt_ldl.*"), ("misc", "kkt_ldl2.*"),
-                            ("misc", "kkt_chol.*"), ("misc", "kkt_chol2.*"), ("misc", "kkt_qr.*")])
-    return chk
 
 
 def _parents(n, stop):
